@@ -2479,6 +2479,8 @@ theorem split_core {f m : Nat} {s sK : State} {a : List UInt8} {j : Nat}
 fuel of the scanner model ran out -/
 def Good (r : Res) : Prop := r ≠ .fuel ∧ r ≠ .err scannerFuel
 
+instance (r : Res) : Decidable (Good r) := by unfold Good; infer_instance
+
 /-- the outcome `P1` of the single call against the outcome `P2` of the last of several calls:
 same result; same interpreter state except that the scanner's line counter and list of
 structured comments are those of the whole input (`l` more lines, `pre` in front), and
@@ -2585,3 +2587,9 @@ theorem split_many (f m : Nat) : ∀ (parts : List (List UInt8)) (s : State) (b 
     exact r1.trans (ih (execute f m s a none).1 b hrest F F2 gF g2)
 
 end PsVerif.Proofs.SplitExec
+
+#print axioms PsVerif.Proofs.SplitExec.frw_scanToken
+#print axioms PsVerif.Proofs.SplitExec.allFr
+#print axioms PsVerif.Proofs.SplitExec.split_core
+#print axioms PsVerif.Proofs.SplitExec.split_two
+#print axioms PsVerif.Proofs.SplitExec.split_many
